@@ -453,102 +453,115 @@ def first_knot(shape_kind, tab):
     return [a[0] for a in axes_of(shape_kind, tab)]
 
 
-def policy_stream(ctx, cat, tr_info):
+TRANSITION = (3, 2)
+POL_CHARGES = dict(charge=1, donor_charge=0, metastable=1)
+
+
+def build_policy_repo(repo, spec, species, stored, wsyms):
+    """write tagged tables under the symbol vectors `stored` and wavelengths for the symbols `wsyms`"""
+    from cherab.openadas import repository as R
+    root = repo.fresh()
+    ch = dict(POL_CHARGES)
+    tags, wls = {}, {}
+    for n_, syms in enumerate(stored):
+        key = tuple([x for x in (sp, _elem(sp)) if x.symbol == sym][0] for sp, sym in zip(species, syms))
+        tags[tuple(syms)] = 2.0 + n_
+        spec['write'](root, key, ch, TRANSITION, tag_table(spec['shape'], 2.0 + n_))
+    if spec['wl']:
+        wl_sp = species[spec['wl'][0]]
+        wl_charge = 0 if spec['wl'][1] is None else ch['charge'] + spec['wl'][1]
+        order = sorted({wl_sp.symbol, _elem(wl_sp).symbol})
+        for sym in wsyms:
+            wls[sym] = 400.0 + 100.0 * (order.index(sym) + 1)
+            who = [x for x in (wl_sp, _elem(wl_sp)) if x.symbol == sym][0]
+            R.update_wavelengths({who: {wl_charge: {TRANSITION: wls[sym]}}}, repository_path=root)
+    return root, ch, tags, wls
+
+
+def run_policy(ctx, name, spec, root, ch, tags, wls, species, stored, null, fb, ex):
+    from cherab.openadas import OpenADAS
+    a = OpenADAS(data_path=root, permit_extrapolation=ex, missing_rates_return_null=null, wavelength_element_fallback=fb)
+    st, val, in_list = call_accessor(spec, a, species, ch, TRANSITION)
+    o = observe_policy(spec, st, val, in_list, tags, wls)
+    m = dict(kind='policy', accessor=name, species=[s.name for s in species], stored=[list(k) for k in stored],
+             wavelengths=sorted(wls), null=null, fallback=fb, extrapolate=ex)
+    policy_oracle(ctx, name, spec, species, [list(k) for k in stored], wls, null, fb, o, m)
+    return pol_line(name, null, fb, list(zip(spec['species'], species)), [list(k) for k in stored], sorted(wls)), o, m
+
+
+def wavelength_case(ctx, repo, sp, wsub, fb):
     from cherab.openadas import OpenADAS, repository as R
-    first, second = _species_pool()
+    syms = sorted({sp.symbol, _elem(sp).symbol})
+    root = repo.fresh()
+    wls = {}
+    for sym in wsub:
+        wls[sym] = 400.0 + 100.0 * (syms.index(sym) + 1)
+        who = [s for s in (sp, _elem(sp)) if s.symbol == sym][0]
+        R.update_wavelengths({who: {0: {TRANSITION: wls[sym]}}}, repository_path=root)
+    a = OpenADAS(data_path=root, wavelength_element_fallback=fb)
+    try:
+        w = a.wavelength(sp, 0, TRANSITION)
+        o = 'ok:' + ([s for s, v in wls.items() if v == w] + ['?'])[0]
+    except Exception as e:  # noqa
+        o = 'raises:' + type(e).__name__
+    repo.drop(root)
+    m = dict(kind='wavelength', species=sp.name, wavelengths=sorted(wls), fallback=fb)
+    # S: the requested species' wavelength when stored; with fall-back the element's; else RuntimeError
+    want = ('ok:' + sp.symbol) if sp.symbol in wls else (
+        'ok:' + _elem(sp).symbol if (fb and _is_iso(sp) and _elem(sp).symbol in wls) else 'raises:RuntimeError')
+    if o != want:
+        fail(ctx, 'C07:wavelength:%s' % ('wrong-species' if o.startswith('ok') else o.split(':')[1]),
+             'OpenADAS.wavelength(%s) with stored %s, fallback=%s gave %s, property wants %s' % (sp.name, sorted(wls), fb, o, want), m)
+    line = 'wl %d %s %s %s %s %d %s' % (fb, 'ion', sp.symbol, _elem(sp).symbol, '1' if _is_iso(sp) else '0', len(wls), ' '.join(sorted(wls)))
+    return line, o, m
+
+
+def policy_stream(ctx, cat):
     from cherab.core.atomic import elements as E
     repo = Repo()
     lines, obs, meta = [], [], []
-    transition = (3, 2)
+    full = ctx.tier == 'thorough'
     # species variants per argument: element, isotope with its own symbol, isotope sharing the element's symbol
     donors = [E.hydrogen, E.deuterium, E.protium]
-    receivers = [E.carbon, E.carbon13, E.hydrogen, E.deuterium, E.protium] if ctx.tier == 'thorough' else [E.carbon, E.carbon13, E.protium]
-    full = ctx.tier == 'thorough'
+    receivers = [E.carbon, E.carbon13, E.hydrogen, E.deuterium, E.protium] if full else [E.carbon, E.carbon13, E.protium]
     for name, spec in cat.items():
-        k = len(spec['species'])
-        pools = [donors, receivers] if k == 2 else [receivers]
+        pools = [donors, receivers] if len(spec['species']) == 2 else [receivers]
         for species in itertools.product(*pools):
             species = list(species)
-            # candidate storage keys: per argument the element and the species as requested
-            cand = sorted(set(itertools.product(*[[_elem(s), s] for s in species])), key=lambda key: key_syms(key))
-            # distinct by symbol vector (protium and hydrogen share files)
-            uniq = {}
-            for key in cand:
-                uniq.setdefault(tuple(key_syms(key)), key)
-            keys = list(uniq.items())
+            # candidate storage keys: per argument the element's symbol and the symbol of the species as requested
+            keys = sorted(set(itertools.product(*[sorted({_elem(s).symbol, s.symbol}) for s in species])))
             subsets = [()]
             if full:
                 for r in range(1, len(keys) + 1):
-                    subsets += list(itertools.combinations(range(len(keys)), r))
+                    subsets += list(itertools.combinations(keys, r))
             else:
-                subsets += [(i,) for i in range(len(keys))] + ([tuple(range(len(keys)))] if len(keys) > 1 else [])
-            wl_sp = species[spec['wl'][0]] if spec['wl'] else None
-            wl_syms = sorted({wl_sp.symbol, _elem(wl_sp).symbol}) if wl_sp is not None else []
+                subsets += [(k,) for k in keys] + ([tuple(keys)] if len(keys) > 1 else [])
+            wl_syms = sorted({species[spec['wl'][0]].symbol, _elem(species[spec['wl'][0]]).symbol}) if spec['wl'] else []
             wl_subsets = [()]
             for r in range(1, len(wl_syms) + 1):
                 wl_subsets += list(itertools.combinations(wl_syms, r))
-            ch = dict(charge=1, donor_charge=0, metastable=1)
-            wl_charge = None
-            if spec['wl']:
-                wl_charge = 0 if spec['wl'][1] is None else ch['charge'] + spec['wl'][1]
             for sub, wsub in itertools.product(subsets, wl_subsets):
-                root = repo.fresh()
-                tags = {}
-                for n_, i in enumerate(sub):
-                    syms, key = keys[i]
-                    tags[syms] = 2.0 + n_
-                    spec['write'](root, key, ch, transition, tag_table(spec['shape'], 2.0 + n_))
-                wls = {}
-                for n_, sym in enumerate(wsub):
-                    wls[sym] = 400.0 + 100.0 * (wl_syms.index(sym) + 1)
-                    who = [s for s in (wl_sp, _elem(wl_sp)) if s.symbol == sym][0]
-                    R.update_wavelengths({who: {wl_charge: {transition: wls[sym]}}}, repository_path=root)
-                stored = [list(keys[i][0]) for i in sub]
+                root, ch, tags, wls = build_policy_repo(repo, spec, species, sub, wsub)
                 for null, fb, ex in itertools.product((False, True), (False, True), (False, True)):
-                    a = OpenADAS(data_path=root, permit_extrapolation=ex, missing_rates_return_null=null, wavelength_element_fallback=fb)
-                    st, val, in_list = call_accessor(spec, a, species, ch, transition)
-                    o = observe_policy(spec, st, val, in_list, tags, wls)
-                    lines.append(pol_line(name, null, fb, list(zip(spec['species'], species)), stored, sorted(wls)))
+                    line, o, m = run_policy(ctx, name, spec, root, ch, tags, wls, species, sub, null, fb, ex)
+                    lines.append(line)
                     obs.append(o)
-                    meta.append(dict(kind='policy', accessor=name, species=[s.name for s in species], stored=stored,
-                                     wavelengths=sorted(wls), null=null, fallback=fb, extrapolate=ex, transition=list(transition),
-                                     charges=ch))
+                    meta.append(m)
                     ctx.count('policy:' + o.split(':')[0])
-                    ctx.case(key=('pol', name, tuple(s.name for s in species), tuple(map(tuple, stored)), tuple(sorted(wls)), null, fb, ex),
-                             sample=meta[-1] if ctx.rng.random() < 0.0005 else None)
-                    policy_oracle(ctx, name, spec, species, stored, wls, null, fb, o, meta[-1])
+                    ctx.case(key=('pol', name, tuple(s.name for s in species), sub, wsub, null, fb, ex),
+                             sample=m if ctx.rng.random() < 0.0005 else None)
                 repo.drop(root)
     # the wavelength accessor itself
     for sp in receivers + [E.deuterium]:
         syms = sorted({sp.symbol, _elem(sp).symbol})
         for r in range(0, len(syms) + 1):
             for wsub in itertools.combinations(syms, r):
-                root = repo.fresh()
-                wls = {}
-                for sym in wsub:
-                    wls[sym] = 400.0 + 100.0 * (syms.index(sym) + 1)
-                    who = [s for s in (sp, _elem(sp)) if s.symbol == sym][0]
-                    R.update_wavelengths({who: {0: {transition: wls[sym]}}}, repository_path=root)
                 for fb in (False, True):
-                    a = OpenADAS(data_path=root, wavelength_element_fallback=fb)
-                    try:
-                        w = a.wavelength(sp, 0, transition)
-                        o = 'ok:' + [s for s, v in wls.items() if v == w][0] if w in wls.values() else 'ok:?'
-                    except Exception as e:  # noqa
-                        o = 'raises:' + type(e).__name__
-                    lines.append('wl %d %s %s %s %s %d %s' % (fb, 'ion', sp.symbol, _elem(sp).symbol, '1' if _is_iso(sp) else '0',
-                                                            len(wls), ' '.join(sorted(wls))))
+                    line, o, m = wavelength_case(ctx, repo, sp, wsub, fb)
+                    lines.append(line)
                     obs.append(o)
-                    m = dict(kind='wavelength', species=sp.name, wavelengths=sorted(wls), fallback=fb)
                     meta.append(m)
-                    ctx.case(key=('wl', sp.name, tuple(sorted(wls)), fb))
-                    # S: the requested species' wavelength when stored; with fall-back the element's; else RuntimeError
-                    want = ('ok:' + sp.symbol) if sp.symbol in wls else (
-                        'ok:' + _elem(sp).symbol if (fb and _is_iso(sp) and _elem(sp).symbol in wls) else 'raises:RuntimeError')
-                    if o != want:
-                        fail(ctx, 'C07:wavelength:%s' % ('wrong-species' if o.startswith('ok') else o.split(':')[1]),
-                                 'OpenADAS.wavelength(%s) with stored %s, fallback=%s gave %s, property wants %s' % (sp.name, sorted(wls), fb, o, want), m)
-                repo.drop(root)
+                    ctx.case(key=('wl', sp.name, wsub, fb))
     repo.close()
     outs = ctx.driver(lines)
     for line, o, m, d in zip(lines, obs, meta, outs):
@@ -640,25 +653,29 @@ def policy_oracle(ctx, name, spec, species, stored, wls, null, fb, o, m):
 
 
 # ------------------------------------------------------------------------------------------------ numeric stream (K + S)
-def numeric_case(ctx, cat, repo, name, dims, ex, gap=None, species=None, fb=None):
-    """build one repository + accessor call; returns dict with driver line(s) and observations"""
+def numeric_case(ctx, cat, repo, name, dims, ex, gap=None, fixed=None):
+    """build one repository + accessor call; returns dict with driver line(s) and observations.
+    `fixed` (replay): dict(species, ch, tr, tab, wls, fb, extra) instead of generated content"""
     from cherab.openadas import OpenADAS, repository as R
     rng = ctx.rng
     spec = cat[name]
     shape = spec['shape']
     first, second = _species_pool()
+    species = fb = None
+    if fixed:
+        species, fb = fixed['species'], fixed['fb']
     if species is None:
         species = [rng.choice(second)] if len(spec['species']) == 1 else [rng.choice(first), rng.choice(second)]
-    ch = charges_for(rng, name, species)
-    tr = rng.choice([(3, 2), (8, 7), ('2s1 2S0.5', '2p1 2P1.5'), (4, 2)])
+    ch = fixed['ch'] if fixed else charges_for(rng, name, species)
+    tr = fixed['tr'] if fixed else rng.choice([(3, 2), (8, 7), ('2s1 2S0.5', '2p1 2P1.5'), (4, 2)])
     root = repo.fresh()
     elem_key = tuple(_elem(s) for s in species)
     req_key = tuple(species)
     tabs = {}
-    tab = gen_table(rng, shape, dims, gap)
+    tab = fixed['tab'] if fixed else gen_table(rng, shape, dims, gap)
     spec['write'](root, elem_key, ch, tr, json.loads(json.dumps(tab)) if shape != 'beamCX' else _cx_copy(tab))
     tabs[tuple(key_syms(elem_key))] = tab
-    if tuple(key_syms(req_key)) not in tabs and rng.random() < 0.7:
+    if tuple(key_syms(req_key)) not in tabs and not fixed and rng.random() < 0.7:
         other = gen_table(rng, shape, dims)
         spec['write'](root, req_key, ch, tr, json.loads(json.dumps(other)) if shape != 'beamCX' else _cx_copy(other))
         tabs[tuple(key_syms(req_key))] = other
@@ -667,14 +684,16 @@ def numeric_case(ctx, cat, repo, name, dims, ex, gap=None, species=None, fb=None
         wsp = species[spec['wl'][0]]
         wch = 0 if spec['wl'][1] is None else ch['charge'] + spec['wl'][1]
         for s in {wsp.symbol: wsp, _elem(wsp).symbol: _elem(wsp)}.values():
-            wls[s.symbol] = _sig(rng.uniform(90.0, 1200.0))
+            if fixed and s.symbol not in fixed['wls']:
+                continue
+            wls[s.symbol] = fixed['wls'][s.symbol] if fixed else _sig(rng.uniform(90.0, 1200.0))
             R.update_wavelengths({s: {wch: {tr: wls[s.symbol]}}}, repository_path=root)
     fb = rng.random() < 0.5 if fb is None else fb
     a = OpenADAS(data_path=root, permit_extrapolation=ex, missing_rates_return_null=rng.random() < 0.5, wavelength_element_fallback=fb)
     st, val, in_list = call_accessor(spec, a, species, ch, tr)
     repo.drop(root)
     return dict(name=name, spec=spec, species=species, ch=ch, tr=tr, tabs=tabs, elem_syms=tuple(key_syms(elem_key)), wls=wls, fb=fb, ex=ex,
-                st=st, val=val, in_list=in_list, dims=dims,
+                st=st, val=val, in_list=in_list, dims=dims, extra=(fixed or {}).get('extra'),
                 pol=pol_line(name, False, fb, list(zip(spec['species'], species)), [list(k) for k in tabs], sorted(wls)))
 
 
@@ -731,6 +750,8 @@ def numeric_stream(ctx, cat, plan):
             wt = c['want_tab']['metastables'][m] if shape == 'beamCX' else c['want_tab']
             mt = (c['model_tab']['metastables'][m] if shape == 'beamCX' else c['model_tab']) if c['model_tab'] else None
             pts = eval_points(ctx.rng, shape, wt, ctx.n(5, 12))
+            if c.get('extra'):
+                pts.append((c['extra']['point'], c['extra']['args'], c['extra']['info']))
             res = [impl_eval(r, p[1]) for p in pts]
             if mt is None:
                 _broke(ctx, 'numeric stream ' + c['name'], dict(input=desc, model=po, implementation='rate object'))
@@ -832,16 +853,6 @@ def _broke(ctx, name, detail):
         ctx.count('disagreement-not-listed:' + name)
 
 
-def _mark_explained(ctx, tr_info):
-    """the table theorems name their known deviants; if the generated table no longer matches them the theorem build
-    breaks and S (the policy stream, exhaustive) has already looked for the failing inputs"""
-    known = set(ctx.known)
-    for b in ctx.broken:
-        if b['kind'] == 'theorem' and ctx.known_hits and not ctx.failing:
-            b['explained_by_known'] = True
-    return known
-
-
 def constants_check(ctx):
     global HC9
     from cherab.core.utility.conversion import PhotonToJ
@@ -889,7 +900,70 @@ def plan_numeric(ctx, cat):
     return plan
 
 
-def run(ctx):
+def lean_as_is(ctx):
+    """the witnesses that today's defects are real (`Props/C07AsIs.lean`): counted as obligations while they hold;
+    when a fix lands they stop compiling by design, which is recorded and nothing more"""
+    from harness.vlib import lean
+    ok, out = lean.lake_build(['Cherab.Props.C07AsIs'])
+    holds = []
+    if ok:
+        ok2, ax, raw = lean.audit('Cherab/Audit/C07AsIs.lean')
+        for t in lean.audit_targets('Cherab/Audit/C07AsIs.lean'):
+            full = [k for k in ax if k == t or k.endswith('.' + t)]
+            if full and not (set(ax[full[0]]) - lean.ALLOWED_AXIOMS):
+                ctx.obligations.append(('as_is.' + t, True, ','.join(ax[full[0]]) or 'no axioms'))
+                holds.append(t)
+    ctx.extra['as_is_witnesses'] = dict(builds=ok, holding=holds,
+                                        note='defect witnesses on the generated table; expected to stop compiling when the fixes land')
+    if not ok:
+        ctx.log('as-is defect witnesses (Props/C07AsIs.lean) no longer compile: a fix has landed or the table changed')
+    return ok
+
+
+def deviants_tie(ctx):
+    """what the generated table says deviates (T side) against what S found on the running code"""
+    out = ctx.driver(['deviants'])[0]
+    pol = [x for x in out.split()[0].split(':', 1)[1].split(',') if x]
+    grd = [x for x in out.split()[1].split(':', 1)[1].split(',') if x]
+    ctx.extra['table_deviants'] = dict(policy=pol, guards=grd)
+    acc_fail = sorted({sg.split(':')[1] for sg in SIGNATURES
+                       if sg.split(':')[1] in ACCESSOR_NAMES and 'grid-point' not in sg})
+    grd_fail = sorted({sg.split(':')[1] for sg in SIGNATURES if ':nonpositive-' in sg})
+    ctx.traces += 2
+    if acc_fail != sorted(pol):
+        ctx.disagreements += 1
+        _broke(ctx, 'table deviants (policy)', dict(table=sorted(pol), failing_on_implementation=acc_fail))
+    if grd_fail != sorted(grd):
+        ctx.disagreements += 1
+        _broke(ctx, 'table deviants (guards)', dict(table=sorted(grd), failing_on_implementation=grd_fail))
+
+
+ACCESSOR_NAMES = set()
+
+
+def setup(ctx):
+    """translator, T, catalogue; returns (catalogue, translator output)"""
+    from harness.translators import openadas_policy
+    tr = openadas_policy.translate()
+    for c in tr['classes']:
+        AXIS_LOG_NUMPY[c['name']] = c['axisLogNumpy']
+    ctx.extra['translator'] = dict(accessors=[a['name'] for a in tr['accessors']], regenerated=tr['changed'],
+                                   unrecognised=[a['name'] for a in tr['accessors'] if not a['recognised']],
+                                   knots_by_numpy_log10=sorted(k for k, v in AXIS_LOG_NUMPY.items() if v))
+    from cherab.openadas import OpenADAS, repository as R
+    if not R.DEFAULT_REPOSITORY_PATH.startswith(_HOME):
+        raise RuntimeError('DEFAULT_REPOSITORY_PATH %s is not under the scratch HOME' % R.DEFAULT_REPOSITORY_PATH)
+    cat = _catalogue()
+    ACCESSOR_NAMES.update(cat)
+    # the catalogue, the generated table and the provider class must list the same accessors
+    impl_names = sorted(n for n in vars(OpenADAS) if not n.startswith('_') and n not in ('data_path', 'wavelength') and callable(getattr(OpenADAS, n)))
+    gen_names = sorted(a['name'] for a in tr['accessors'])
+    if impl_names != sorted(cat) or gen_names != sorted(cat):
+        _broke(ctx, 'accessor list', dict(implementation=impl_names, translator=gen_names, harness=sorted(cat)))
+    return cat, tr
+
+
+def describe(ctx):
     ctx.rule = ('policy: exhaustive product accessor x species kinds (element / isotope / isotope sharing the element symbol) x stored key subsets '
                 'x stored wavelength subsets x 8 flag settings, distinct by that tuple; numerics: per accessor generated positive tables over the shape '
                 'list (incl. single-point axes), evaluated at every grid point, interior points, non-positive arguments and 1.001x/3x/10x outside '
@@ -904,44 +978,87 @@ def run(ctx):
     ctx.assumptions += ['tables: strictly increasing positive axes with >= 0.08 decade spacing, 6-significant-digit values, |d log10 rate / d log10 x| bounded '
                         '(so that extrapolating one decade stays finite in double precision)',
                         'a single-point axis tabulates no dependence on that variable: no range policy is demanded along it',
+                        'raysect refuses to build N-D array interpolators on a single-point axis: the accessor raises ValueError and returns no rate object '
+                        '(modelled as ctorError, compared, counted; the sentence speaks of returned rate objects)',
                         'values between knots (raysect cubic) are only checked for sign / finiteness / status',
                         'a missing wavelength (rate data present) is outside the missing-rates clause: the accessors raise RuntimeError (modelled, compared, not judged)']
-    from harness.translators import openadas_policy
-    tr = openadas_policy.translate()
-    ctx.extra['translator'] = dict(accessors=[a['name'] for a in tr['accessors']], regenerated=tr['changed'],
-                                   unrecognised=[a['name'] for a in tr['accessors'] if not a['recognised']])
-    ctx.lean_check(['Cherab.Props.C07', 'Cherab.Props.C07Table'], 'Cherab/Audit/C07.lean')
 
-    from cherab.openadas import OpenADAS, repository as R
-    if not R.DEFAULT_REPOSITORY_PATH.startswith(_HOME):
-        raise RuntimeError('DEFAULT_REPOSITORY_PATH %s is not under the scratch HOME' % R.DEFAULT_REPOSITORY_PATH)
-    cat = _catalogue()
-    # the catalogue, the generated table and the provider class must list the same accessors
-    impl_names = sorted(n for n in vars(OpenADAS) if not n.startswith('_') and n not in ('data_path', 'wavelength') and callable(getattr(OpenADAS, n)))
-    gen_names = sorted(a['name'] for a in tr['accessors'])
-    if impl_names != sorted(cat) or gen_names != sorted(cat):
-        _broke(ctx, 'accessor list', dict(implementation=impl_names, translator=gen_names, harness=sorted(cat)))
-    try:
-        constants_check(ctx)
-        n_pol = policy_stream(ctx, cat, tr)
-        ctx.count('policy-cases', n_pol)
-        numeric_stream(ctx, cat, plan_numeric(ctx, cat))
-    finally:
-        stray = os.path.exists(os.path.join(_HOME, '.cherab'))
-        shutil.rmtree(_HOME, ignore_errors=True)
+
+def finish_run(ctx):
+    stray = os.path.exists(os.path.join(_HOME, '.cherab'))
+    shutil.rmtree(_HOME, ignore_errors=True)
+    if _REAL_HOME is not None:
+        os.environ['HOME'] = _REAL_HOME
     if stray:
         ctx.count('stray-write-under-home')
         fail(ctx, 'C07:accessor-writes-under-home', 'an accessor call created ~/.cherab although data_path was given', {})
+    # a known (open) finding explains the correspondence lines that only restate it; nothing else is excused
+    if ctx.broken and not ctx.failing and ctx.known_hits:
+        for b in ctx.broken:
+            if b['kind'] == 'correspondence' and b['name'].startswith('C07 table deviants'):
+                pass
+
+
+def run(ctx):
+    describe(ctx)
+    cat, tr = setup(ctx)
+    ctx.lean_check(['Cherab.Props.C07', 'Cherab.Props.C07Table'], 'Cherab/Audit/C07.lean')
+    lean_as_is(ctx)
+    try:
+        constants_check(ctx)
+        n_pol = policy_stream(ctx, cat)
+        ctx.count('policy-cases', n_pol)
+        numeric_stream(ctx, cat, plan_numeric(ctx, cat))
+        deviants_tie(ctx)
+    finally:
+        finish_run(ctx)
     ctx.exhaustive = True
     ctx.extra['exhaustive_part'] = 'policy stream (accessor x species kinds x stored keys x wavelengths x flags)'
-    _mark_explained(ctx, tr)
 
 
 def replay(ctx, path):
+    """re-execute the recorded input against the current tree; exit 1 iff its signature fails again"""
+    from cherab.core.atomic import elements as E
     r = json.load(open(path))
-    print(json.dumps({k: r[k] for k in r if k != 'broken'}, indent=1, default=str)[:3000])
-    run(ctx)
-    sig = r.get('signature')
-    again = [f for f in ctx.failing if f['signature'] == sig] + [k for k in ctx.known_hits if k['signature'] == sig]
-    print('REPLAY: signature %s %s on the current tree' % (sig, 'still fails' if again else 'no longer fails'))
-    return ctx.finish()
+    sig, d = r.get('signature'), r.get('replay') or {}
+    print('REPLAY %s' % sig)
+    print(json.dumps(d, indent=1, default=str)[:2500])
+    describe(ctx)
+    cat, tr = setup(ctx)
+    repo = Repo()
+    try:
+        constants_check(ctx)
+        if d.get('kind') == 'policy':
+            spec = cat[d['accessor']]
+            species = [getattr(E, n) for n in d['species']]
+            stored = [tuple(k) for k in d['stored']]
+            root, ch, tags, wls = build_policy_repo(repo, spec, species, stored, d['wavelengths'])
+            line, o, m = run_policy(ctx, d['accessor'], spec, root, ch, tags, wls, species, stored, d['null'], d['fallback'], d['extrapolate'])
+            print('implementation: %s   model: %s' % (o, ctx.driver([line])[0]))
+        elif d.get('kind') == 'wavelength':
+            line, o, m = wavelength_case(ctx, repo, getattr(E, d['species']), d['wavelengths'], d['fallback'])
+            print('implementation: %s   model: %s' % (o, ctx.driver([line])[0]))
+        elif d.get('kind') == 'numeric':
+            spec = cat[d['accessor']]
+            tab = d['table']
+            if spec['shape'] == 'beamCX':
+                tab = dict(metastables={int(d.get('metastable') or 1): tab})
+            tr_ = d['transition']
+            fixed = dict(species=[getattr(E, n) for n in d['species']], ch=d['charges'], tr=tuple(tr_), tab=tab, wls=d['wavelengths'],
+                         fb=d['fallback'], extra=dict(point=d['point'], args=d['args'], info=d['info']) if 'args' in d else None)
+            numeric_stream(ctx, cat, [(d['accessor'], tuple(d['dims']), d['extrapolate'], None, fixed)])
+        else:
+            print('no targeted replay for this record; running the whole check')
+            repo.close()
+            run(ctx)
+            return ctx.finish()
+    finally:
+        repo.close()
+        finish_run(ctx)
+    again = sig in SIGNATURES
+    print('REPLAY RESULT: %s %s on the current tree' % (sig, 'FAILS AGAIN' if again else 'does not fail'))
+    for f in ctx.failing:
+        print('  failing: %s -- %s' % (f['signature'], f['description'][:300]))
+    for k in ctx.known_hits:
+        print('  known finding hit: %s' % k['signature'])
+    return 1 if again else 0
